@@ -346,6 +346,7 @@ type traceResult struct {
 	Counts   map[string]int // per system call name: calls on classified paths that were started (completed or not)
 	Strange  []string // calls on repository paths outside the vocabulary (link, truncate by path, O_TRUNC ...)
 	OtherMut []string // mutations of repository entries that are not files of a known table
+	Injected []string // calls strace made fail (inject=...:error=...), as "name path"
 }
 
 // traceToOps keeps the calls that touch files of known tables in repository n
@@ -360,6 +361,18 @@ func traceToOps(calls []rawCall, n *repoNames) traceResult {
 	inRepo := func(p string) bool { return filepath.Dir(p) == n.Dir }
 	for _, c := range calls {
 		ret, ok := retOK(c.Ret)
+		if strings.Contains(c.Ret, "(INJECTED)") {
+			strs, _ := hexStrings(c.Args)
+			d := c.Name
+			if len(strs) > 0 {
+				d += " " + filepath.Base(strs[0])
+			} else if fd, okfd := fdOf(c.Args); okfd {
+				if p, has := fds[fd]; has {
+					d += " " + p.String()
+				}
+			}
+			tr.Injected = append(tr.Injected, d)
+		}
 		switch c.Name {
 		case "openat", "open", "creat":
 			strs, _ := hexStrings(c.Args)
